@@ -458,3 +458,40 @@ def decode (t : PType) : Rd Packet :=
 
 /-- bytes reported as consumed -/
 def consumed (src : Bytes) (r : R α) : Nat := src.length - r.rest.length
+
+/-! ### well-formedness: exactly the packets that `Encode` followed by `Decode` accepts -/
+
+def lp16 (b : Bytes) : Bool := b.length ≤ 65535
+
+def Message.WF (m : Message) : Bool := qosOK m.qos && lp16 m.topic && m.topic.length > 0
+
+def Packet.WF : Packet → Bool
+  | .connect c _ u p clean w v =>
+      (v == 0 || v == 3 || v == 4) && lp16 c && lp16 u && lp16 p
+      && (match w with | some m => m.WF && lp16 m.payload | none => true)
+      && (c.length > 0 || clean) && (p.length == 0 || u.length > 0)
+  | .connack _ code => code ≤ 5
+  | .publish m _ id => m.WF && (if m.qos == 0 then id == 0 else id != 0)
+      && 2 + m.topic.length + m.payload.length + 2 ≤ maxVarint
+  | .puback id | .pubrec id | .pubrel id | .pubcomp id | .unsuback id => id != 0
+  | .subscribe ss id => id != 0 && !ss.isEmpty && ss.all (fun s => lp16 s.topic && qosOK s.qos)
+      && 2 + Packet.subsLen ss ≤ maxVarint
+  | .suback cs id => id != 0 && !cs.isEmpty && cs.all subackCodeOK && 2 + cs.length ≤ maxVarint
+  | .unsubscribe ts id => id != 0 && !ts.isEmpty && ts.all lp16 && 2 + Packet.topicsLen ts ≤ maxVarint
+  | .pingreq | .pingresp | .disconnect => true
+
+/-- Go `Decode` never produces a nil/empty distinction the model could see; `R.toOption` forgets
+    the unread rest. -/
+def R.toOption : R α → Option α
+  | .ok a _ => some a
+  | .err _ _ => none
+
+/-- `bs` is exactly one packet according to its own fixed header (type/flags byte, remaining
+    length of at most four bytes, exactly that many bytes after it). -/
+def framed (bs : Bytes) : Bool :=
+  match bs with
+  | _ :: tl =>
+    match readVarint tl with
+    | .ok rl rest => rest.length == rl
+    | .err _ _ => false
+  | [] => false
